@@ -181,6 +181,9 @@ Definition snap_executed (snap : snap_t) (c : N) : list range :=
   flat_map (fun cre => if N.eqb (fst (fst cre)) c then snd cre else []) snap.
 Definition snap_reports (snap : snap_t) (c : N) : list rep :=
   flat_map (fun cre => if N.eqb (fst (fst cre)) c then snd (fst cre) else []) snap.
+(* the messages of chain [c] in the report, as executed ranges (one per message) *)
+Definition reported_runs (msgs : list (N * N)) (c : N) : list range :=
+  map (fun m => (snd m, snd m)) (filter (fun m => N.eqb (fst m) c) msgs).
 Definition hist_ok (i : hist_in) (o : hist_out) : bool :=
   let '(st, snap) := i in
   match o with
@@ -194,7 +197,16 @@ Definition hist_ok (i : hist_in) (o : hist_out) : bool :=
       (* pending exactly the reports with an unexecuted message, with the executed set inside their interval *)
       (if N.eqb st 3 then
          (* after the Filter round a report is still pending only if one of its messages is neither executed nor selected *)
-         forallb (fun cr => match unexecuted (snd cr) with [] => false | _ => true end) pend
+         forallb (fun cr => match unexecuted (snd cr) with [] => false | _ => true end) pend &&
+         (* judge soundness (Proofs/JudgeSoundC09P.v): state 3 used to test only the line above, so a report with an
+            unreported unexecuted message could be dropped from the pending list, and the executed list recorded for a
+            report that stays pending was free (witness hist_ok_before_weak).  EXACT clause, relative to what THIS
+            outcome's report holds (so it stays true when not everything fits into one report): pending after Filter =
+            the committed reports with a message that is neither executed per the snapshot nor in the report, each
+            recording (executed per the snapshot \/ in the report) /\ its interval *)
+         list_eqb (pair_eqb N.eqb rep_eqb) pend
+           (flat_map (fun cre => map (pair (fst (fst cre)))
+                                     (pending_spec (snd (fst cre)) (snd cre ++ reported_runs msgs (fst (fst cre))))) snap)
        else list_eqb (pair_eqb N.eqb rep_eqb) pend
               (flat_map (fun cre => map (pair (fst (fst cre))) (pending_spec (snd (fst cre)) (snd cre))) snap) &&
             match msgs with [] => true | _ => false end)
